@@ -17,9 +17,10 @@ def run(ctx):
                 "(blowup 2,4,8) with/without periodic column x exemptions {1,2,d}; wide segments (64, 8+8, 9+9, 128+125+Lagrange, 1+253+Lagrange); auxiliary sequence assertions with "
                 ">= 64 values (128 / 256 rows); degenerate traces; the plain "
                 "Lagrange family; random members.  Oracle: reference validity (is_valid, x_aux_check) => prove Ok, verify Ok, byte round trip, in both profiles; in the debug "
-                "profile a panic of the prover's debug-only degree validation is tolerated exactly where the reference computation of the actual constraint degrees "
-                "(x_main_exact / x_aux_exact / x_domain_ok: leading coefficients of the trace, periodic and constraint polynomials) predicts it, and the cells count only "
-                "members predicted degree-exact; Trace::validate is additionally called directly with auxiliary segment + Lagrange column on valid / exempt-row-using / "
+                "profile a panic of the prover's debug-only degree validation on a valid trace is the OPEN finding F-C01-debug-degree-diagnostics: it is attributed to that "
+                "finding (KNOWN-FINDING, one report per kind degrees / domain-size per run, the rest counted) only where the reference computation of the actual constraint degrees "
+                "(x_main_exact / x_aux_check / x_domain_ok: leading coefficients of the trace, periodic and constraint polynomials) predicts exactly that assertion; a predicted "
+                "diagnostic that does not fire, that assertion where none is predicted, and every other debug panic are violations; the cells count only members predicted degree-exact; Trace::validate is additionally called directly with auxiliary segment + Lagrange column on valid / exempt-row-using / "
                 "one-cell-mutated traces (degenerate ones included) and must agree with the reference.  "
                 "Falsifier, main streams (RELEASE profile; debug builds run debug-only degree validation that the property's degenerate traces trip): members of the "
                 "parametric AIR family harness/src/airfam.rs — boundary stream: degenerate valid traces (constant column, all-constant, all-zero, "
@@ -44,7 +45,7 @@ def run(ctx):
         "the coin values are an arbitrary function `sem` of the labelled symbolic challenge list of Model/Transcript.v (the same function on both sides): that the real DefaultRandomCoin is such a function (deterministic in the absorbed history and the draw index) is C19_coin_deterministic",
         "the algebraic model (Model/Stark.v part 2): its DEEP composition / composition-column segmentation / verifier recomputation are run against the real composer code (correspondence alg:deep, base fields only); the remaining glue of prove/verify (order of stages, transcript, Merkle, FRI) is tied by reading and by the end-to-end falsifier only",
         "Lagrange-kernel auxiliary columns are not in the Coq model; the falsifier covers them (mini family LagAir and the wrapper family XAir of harness/src/bin/c01.rs, both profiles)",
-        "debug profile: the prover's #[cfg(debug_assertions)] validate_transition_degrees (declared vs actual constraint degrees, smallest evaluation domain) is a diagnostic on the AIR description, compiled out of release builds; a panic of it is NOT counted as a violation when the check's reference computation of the actual degrees predicts it (degenerate columns; and the corners n=8/degree 5 + cycle-2 column/blowup 8, n=8/degree 10/blowup 16, n=16/degree 9 + cycle-2 column/blowup 16, where a degree-exact trace has quotient degree exactly half the evaluation domain); the same members must be proved in release; every other debug outcome, in particular a panic of Trace::validate on a valid trace, is a violation",
+        "debug profile: the prover's #[cfg(debug_assertions)] validate_transition_degrees (declared vs actual constraint degrees, smallest evaluation domain) panics on valid traces of the supported class (degenerate columns; and the degree-exact corners n=8/degree 5 + cycle-2 column/blowup 8, n=16/degree 9 + cycle-2 column/blowup 16, n=8/degree 10/blowup 16): the property names no build profile, so this is recorded as the OPEN finding F-C01-debug-degree-diagnostics (coordinator's decision; not repaired: a patch would remove or weaken a maintainers' diagnostic), reproduced on every run by pinned cases and matched ONLY where the check's reference computation of the actual degrees predicts exactly that assertion; the same members are proved in release; every other debug outcome, in particular a panic of Trace::validate on a valid trace, is a violation",
         "extension fields: the algebraic theorems hold for every FOps with FLaws (hence for the extensions once C08 provides their FLaws); E::from(B) embeddings are not modelled separately",
     ]
     # findings proposed by this check that are not yet merged into known_findings.json
@@ -120,7 +121,7 @@ def run(ctx):
         nx = (1500 if quick else 20000) * (3 if ctx.broken() else 1)
         reps = 6 if quick else 24
         rc, out, dt = vcheck.sh([binp, "xfalsify", str(ctx.seed), str(nx), str(reps)], timeout=600 if quick else 4000)
-        nfail, tail, prof_ok = 0, False, False
+        nfail, nknown, tail, prof_ok = 0, 0, False, False
         for line in out.split("\n"):
             if line.startswith("{"):
                 try:
@@ -130,8 +131,10 @@ def run(ctx):
                 f["profile"] = prof
                 f["input"] = json.dumps(f["input"], separators=(",", ":"))
                 f.pop("unshrunk", None)
-                nfail += 1
-                ctx.add_failure(f)
+                if ctx.add_failure(f):
+                    nfail += 1
+                else:
+                    nknown += 1   # matched the signature of an open known finding (F-C01-debug-degree-diagnostics)
             elif line.startswith("evaluations="):
                 tail = True
                 ctx.evaluations += int(line.split()[0].split("=")[1])
@@ -140,7 +143,7 @@ def run(ctx):
             elif line.startswith("profile="):
                 prof_ok = line.split()[0] == "profile=" + prof   # the binary itself says whether debug assertions are compiled in
         ctx.ob("falsifier-ran:debug" if prof == "debug" else "falsifier-ran:release:x-stream", rc == 0 and tail and prof_ok, out[-300:])
-        ctx.notes.setdefault("falsifier", {})[prof + ":x-stream"] = {"budget": nx, "failures": nfail, "wall_s": round(dt, 1)}
+        ctx.notes.setdefault("falsifier", {})[prof + ":x-stream"] = {"budget": nx, "failures": nfail, "known_finding_reports": nknown, "wall_s": round(dt, 1)}
     # every cell profile x aux shape x Lagrange column x exemptions-used must have been PROVED AND VERIFIED at least once (debug: by a member the
     # reference computation calls degree-exact), and the direct Trace::validate cross-check must have seen valid and invalid traces with aux + Lagrange
     need = []
@@ -149,7 +152,8 @@ def run(ctx):
             for lag in lags:
                 for ex in ("e1", "e2:used", "e3:used"):
                     need.append((prof, f"cell:aux-{shape}:lag{lag}:{ex}"))
-        need += [(prof, k) for k in ("x-plain-lagrange-kernel", "x-degenerate:zero-trace-aux", "x-degenerate:all-hold-e3", "x-width:9+9", "x-aux-sequence:>=64-values",
+        need += [(prof, k) for k in ("x-plain-lagrange-kernel", "x-degenerate:zero-trace-aux", "x-degenerate:all-hold-e3", "x-degenerate:constant-column-e2", "x-degree:n=8,d=5,cycle=2", "x-degree:n=8,d=10,cycle=0",
+                                     "x-degree:n=16,d=9,cycle=2", "x-width:9+9", "x-aux-sequence:>=64-values",
                                      "x-crosscheck:valid:aux1:lag1:e>=2", "x-crosscheck:invalid:aux1:lag1:e>=2", "x-crosscheck:valid:aux1:lag0:e>=2",
                                      "x-crosscheck:invalid:aux1:lag0:e>=2", "x-crosscheck:valid:aux0:lag0:e>=2")]
     missing = [f"{p}/{k}" for p, k in need if xstrata.get(p, {}).get(k, 0) == 0]
